@@ -9,7 +9,7 @@ cd "$VERIF_DIR/sim" || exit 2
 export CARGO_NET_OFFLINE=true
 fail=0
 tmp="$(mktemp -d /var/tmp/andasim-det.XXXXXX)"
-DEFAULT_PAIRS="h_store:C07 h_store:C08 h_store:C09 h_index:C10 h_index:C11 h_index:C12 h_db:C01 h_db:C02 h_db:C04 h_db:C05 h_db:C06 h_nexus:C17 h_nexus:C18 h_nexus:C19 h_nexus:C20 h_server:C14"
+DEFAULT_PAIRS="h_store:C07 h_store:C08 h_store:C09 h_index:C10 h_index:C11 h_index:C12 h_db:C01 h_db:C02 h_db:C04 h_db:C05 h_db:C06 h_nexus:C17 h_nexus:C18 h_nexus:C19 h_nexus:C20 h_server:C14 h_index:C04"
 for pair in ${DET_PAIRS:-$DEFAULT_PAIRS}; do
   H="${pair%%:*}"; ID="${pair##*:}"
   [ -d "$VERIF_DIR/sim/$H" ] || continue
